@@ -100,7 +100,7 @@ def io_cfg(k, gunzip, gz, streams, probe, rewind, live, invs=None, fifos=(), fif
 
 
 # ---- PipelineKey (facts of the line in the worker's context: key AND ignore expressions)
-PK_INVS = "KTypeOK ClassOK KeysOK KCountersOK KFinalOK"
+PK_INVS = "KTypeOK ClassOK KeysOK KCountersOK KFinalOK KObsCountersOK KObsFinalOK"
 PK_ACTIONS = ("ReaderCut", "WorkerRecv", "WorkerBind", "WorkerEval", "WorkerSend")
 
 
@@ -143,7 +143,7 @@ def key_jobs(quick):
             ("PipelineKey_MC", pk_cfg(7, 2, 3, 1, True, live=True), "PipelineKey scn=7 B=2 W=3 timer refines+terminates", None),
             ("PipelineKey_MC", pk_cfg(6, 3, 2, 2, True), "PipelineKey scn=6 (match facts only) B=3", None),
             ("PipelineKey_MC", pk_cfg(3, 2, 2, 1, False, setfacts="kept", invs="KCountersOK ClassOK"), "PipelineKey scn=3 stale src under {not {eq {src}}} (must be refuted)", "ClassOK"),
-            ("PipelineKey_MC", pk_cfg(5, 2, 2, 1, False, setfacts="kept", invs="KTypeOK", props="KRefines"), "PipelineKey scn=5 stale context breaks the refinement of PipelineObs (must be refuted)", "KRefines"),
+            ("PipelineKey_MC", pk_cfg(5, 2, 2, 1, False, setfacts="kept", invs="KObsFinalOK"), "PipelineKey scn=5 stale context: PipelineObs's final law read through the refinement mapping fails (must be refuted)", "KObsFinalOK"),
             ("PipelineKey_MC", pk_cfg(4, 2, 2, 1, False, setfacts="kept", invs="KeysOK"), "PipelineKey scn=4 late src/line with match-only ignores: the KEY still sees the line's own facts (passes)", None),
             ("PipelineKey_MC", pk_cfg(7, 2, 2, 1, True, advance="size", invs="ClassOK"), "PipelineKey scn=7 advance=batch size: {gt {line}} classes drift behind a timer cut (must be refuted)", "ClassOK"),
             ("PipelineKey_MC", pk_cfg(4, 2, 2, 1, False, shared=True, invs="KeysOK"), "PipelineKey scn=4 shared context: keys of another worker's line (must be refuted)", "KeysOK"),
@@ -290,7 +290,7 @@ def _check(run):
         for (mod, expect, r), (_, _, label, _) in zip(layers, lj):
             if expect is None:
                 require_clean(run, r, label)
-            elif expect not in r.violated and not (expect == "KRefines" and "line" in r.violated):
+            elif expect not in r.violated:
                 raise Inconclusive("negative control not refuted as expected (%s): %s violated=%s\n%s" % (expect, label, r.violated, r.out[-1500:]))
             else:
                 refuted += 1
